@@ -486,6 +486,10 @@ def make_conn(fw, case):
                    server_mwb=z.server_max_window_bits, client_mwb=z.client_max_window_bits)
         want = dict(pp, server_mwb=pp["server_mwb"] or 15, client_mwb=pp["client_mwb"] or 15)
         assert got == want, "negotiated %r, wanted %r" % (got, want)
+    if case.get("factory_after"):
+        # the application reconfigures the FACTORY while this connection is up: that is for connections made later; this one
+        # keeps the options it was made with (they were copied to the protocol when the connection was made)
+        conn.factory.setProtocolOptions(**case["factory_after"])
     if case["closing"]:
         conn.call("sendClose", 1000)
         assert conn.state() == "CLOSING"
